@@ -241,7 +241,7 @@ int main()
         g3::Point* p = *i;
         std::cout << "data pt " << p->name << " " << hex(p->B()) << " " << hex(p->L()) << " "
                   << hex(p->X()) << " " << hex(p->Y()) << " " << hex(p->Z()) << " " << hex(p->H()) << " "
-                  << hex(p->has_geoid() ? p->geoid() : 0.0) << " " << p->has_position() << " " << p->has_geoid()
+                  << hex(p->has_geoid() ? p->geoid() : 0.0) << " " << p->has_xyz() << " " << p->has_blh() << " " << p->has_geoid()
                   << " " << st(p->N) << " " << st(p->E) << " " << st(p->U) << "\n";
       }
       int ci = 0;
@@ -295,7 +295,10 @@ int main()
         }
       }
       std::cout << "\n";
-      std::cout << "res rej " << m->rejected_obs.size() << "\n";
+      std::cout << "res act";
+      for (auto c = m->obsdata.clusters.begin(); c != m->obsdata.clusters.end(); ++c)
+        for (auto o : (*c)->observation_list) std::cout << " " << (o->active() ? 1 : 0);
+      std::cout << "\n";
       print_adj("res", m->adj_input_data);
     }
     else if (op == "adjrt" && model) {
